@@ -81,7 +81,8 @@ func (m *Message) Equals(toCompare *Message) bool {
 		return false
 	}
 	for key, value := range m.Metadata {
-		if value != toCompare.Metadata[key] {
+		otherValue, ok := toCompare.Metadata[key]
+		if !ok || value != otherValue {
 			return false
 		}
 	}
